@@ -276,6 +276,88 @@ def analyse(mod, run, label, names=None):
                       Finding("B6-bit-array-scan-incomplete", fn.name, "bitmap-scan", "loop",
                               "%s asks the bit array about the values 0..%s with a %d-bit counter (at %s): members up to 65535 exist, the top ones are never seen and are dropped by this conversion" % (
                                   fn.name, last, bits6, loc(ci6)), loc=loc(ci6)))
+    # ---- B7: removing a half-open range [min, max) of 16-bit bounds never empties the set wholesale ----
+    # (max <= 65535, so the value 65535 is never inside the range: no test of min / max can justify dropping every member.  The rule
+    #  looks for what "dropping every member" is in this code: a call that reaches varintBitmapClear, or a store of 0 to the cardinality.)
+    rr = mod.fn("varintBitmapRemoveRange")
+    if label != "control" and (rr is None or not rr.blocks): raise AnalysisBroken("anchor function vanished: varintBitmapRemoveRange")
+    if rr is not None and rr.blocks:
+        seen7 = {rr.name}; work7 = [rr]; wholesale = []
+        while work7:
+            g7 = work7.pop()
+            if needs_no_array_arm(g7) and g7 is rr: wholesale.append((g7, None))
+            for c7 in g7.calls():
+                cal7 = c7.get("callee") or ""
+                if cal7 == "varintBitmapClear": wholesale.append((g7, c7)); continue
+                h7 = mod.fn(cal7)
+                if h7 is not None and h7.internal and h7.blocks and h7.name not in seen7:
+                    seen7.add(h7.name); work7.append(h7)
+                    if needs_no_array_arm(h7): wholesale.append((g7, c7))
+        run.check(not wholesale, "B7-remove-range-removes-only-the-range", {"fn": rr.name, "reached": sorted(seen7)},
+                  Finding("B7-remove-range-empties-the-set", rr.name, "range", "call:%s" % ((wholesale[0][1].get("callee") if wholesale and wholesale[0][1] is not None else "cardinality=0")),
+                          "varintBitmapRemoveRange can empty the whole set (%s): its range [min, max) has 16-bit bounds and never contains 65535, so whatever test of min and max guards this, a member outside the range is removed with it" % (
+                              ("through %s at %s" % (wholesale[0][1].get("callee"), loc(wholesale[0][1]))) if wholesale and wholesale[0][1] is not None else "it stores 0 into the cardinality"),
+                          loc=loc(wholesale[0][1]) if wholesale and wholesale[0][1] is not None else None))
+    # ---- B8: the deserialiser accepts every array container the mutators can leave behind ----
+    # (varintBitmapAdd converts an array to a bit array when `cardinality >= K` *before* inserting, so an array container holds up to K
+    #  members; a cardinality test against a constant in the decoder's ARRAY case that refuses K - or any test ahead of the dispatch that
+    #  refuses a cardinality up to 65536 - makes serialise/deserialise lose a set the library itself produced)
+    addf = mod.fn("varintBitmapAdd"); decf = mod.fn("varintBitmapDecode")
+    if label != "control":
+        if addf is None or decf is None or not addf.blocks or not decf.blocks: raise AnalysisBroken("anchor function vanished: varintBitmapAdd / varintBitmapDecode")
+        def card_cmp(fn, fi_, ci):
+            """(pred, K) for icmp(load of the cardinality field, constant)"""
+            if ci.op != "icmp" or ci.ops[1]["k"] != "int" or ci.ops[0]["k"] != "inst": return None
+            ld = fn.imap[ci.ops[0]["v"]]
+            if ld.op != "load" or ld["size"] != 4: return None
+            root, off = fi_.ptr(ld.ops[0])
+            if not off.is_const() or off.c != card_off: return None
+            return ci["pred"], int(ci.ops[1]["v"])
+        fia = w.fi(addf).prepare(); addf.dom(); max_array = None
+        for c8 in addf.calls():
+            if "tobitmap" not in (c8.get("callee") or "").lower(): continue
+            for b8 in addf.blocks:
+                t8 = b8.term
+                if t8.op != "br" or len(t8.ops) != 3 or t8.ops[0]["k"] != "inst": continue
+                pk = card_cmp(addf, fia, addf.imap[t8.ops[0]["v"]])
+                if pk is None or not addf.dominates(t8.ops[2]["v"], c8.block.id) or t8.ops[2]["v"] == t8.ops[1]["v"]: continue
+                m8 = {"uge": pk[1], "ugt": pk[1] + 1, "eq": pk[1], "sge": pk[1], "sgt": pk[1] + 1}.get(pk[0])
+                if m8 is not None: max_array = m8 if max_array is None else max(max_array, m8)
+        if max_array is None: raise AnalysisBroken("B8: the array-to-bitmap conversion threshold of varintBitmapAdd was not found")
+        fid = w.fi(decf).prepare(); decf.dom()
+        sw8 = [b.term for b in decf.blocks if b.term.op == "switch"]
+        arr_blocks = set()
+        en8 = mod.enums.get("varintBitmapContainerType") or {}
+        for t8 in sw8:
+            for c_ in t8["cases"]:
+                if en8 and int(c_["v"]) == int(en8.get("VARINT_BITMAP_ARRAY", -1)): arr_blocks.add(c_["b"])
+        def only_null_returns(bid):
+            rets = [decf.bmap[x].term for x in (decf.reachable(bid) | {bid}) if decf.bmap[x].term.op == "ret"]
+            def nulls(r, via):
+                v = r.ops[0]
+                if v["k"] == "null": return True
+                if v["k"] == "inst" and decf.imap[v["v"]].op == "phi" and decf.imap[v["v"]].block is r.block:
+                    return all(c_["v"]["k"] == "null" for c_ in decf.imap[v["v"]]["incoming"] if c_["b"] in via)
+                return False
+            via = decf.reachable(bid) | {bid}
+            return bool(rets) and all(nulls(r, via) for r in rets)
+        for b8 in decf.blocks:
+            t8 = b8.term
+            if t8.op != "br" or len(t8.ops) != 3 or t8.ops[0]["k"] != "inst": continue
+            conds8 = [decf.imap[t8.ops[0]["v"]]]
+            for ci8 in conds8:
+                pk = card_cmp(decf, fid, ci8)
+                if pk is None or pk[0] not in ("uge", "ugt", "sge", "sgt"): continue
+                if not only_null_returns(t8.ops[2]["v"]): continue
+                first_refused = pk[1] if pk[0] in ("uge", "sge") else pk[1] + 1
+                in_array = any(decf.dominates(a_, b8.id) for a_ in arr_blocks)
+                limit = max_array if in_array else (65536 if not sw8 or all(decf.dominates(b8.id, t_.block.id) for t_ in sw8) else None)
+                if limit is None: continue
+                run.check(first_refused > limit, "B8-deserialiser-accepts-what-the-mutators-produce", {"at": loc(ci8), "first_refused": first_refused, "largest_produced": limit},
+                          Finding("B8-deserialiser-refuses-a-producible-set", decf.name, "cardinality", "compare",
+                                  "varintBitmapDecode refuses %s cardinality >= %d at %s, but %s: serialising such a set and reading it back fails" % (
+                                      "an array container of" if in_array else "a", first_refused, loc(ci8),
+                                      "varintBitmapAdd only converts an array once it already holds %d members, so an array of %d is a legal state" % (max_array, max_array) if in_array else "a set can hold 65536 members"), loc=loc(ci8)))
     # ---- B3 ----
     nfree = 0
     for fn in sorted(mod.defined(), key=lambda f: f.name):
